@@ -72,6 +72,11 @@ META = {
                     "mdg.subdomains()/interfaces() without arguments return every grid once in a fixed order (C24)",
                     "no code outside EquationSystem writes the four attributes (swept in the thorough tier)",
                     "Variable.id is unique per variable"],
+    "accepted_forms": ["grid loops: two loops, or one loop over subdomains()+interfaces() (concatenation, chain, [*a, *b], a local list built by = / += / extend, one private helper returning it)",
+                       "filters: `if sel:` block or `if not sel: continue` guard; temporaries introduced or inlined at any enclosing block level; keyword arguments",
+                       "offsets array built inline or returned by one private zero-argument helper on self; argmax(offsets > dof)-1 or searchsorted(offsets, dof, side='right')-1",
+                       "id lookup by comprehension or by a for loop over _variable_numbers.items(); value gathering by loop+append or list comprehension",
+                       "dict insertion by subscript store or update({k: v}); counter or len(<sizes>) numbering; block-size formula inline or in one shared private helper"],
     "technique": "CFG post-dominance/dominance for writer discipline + shape/dataflow matching of the renumbering loop and of each reader's offset derivation",
 }
 MIN_INSTANCES = {"R1": 16, "R2": 10, "R3": 20, "R4": 14}
@@ -160,10 +165,10 @@ def _unwrap(e: ast.expr) -> ast.expr:
     return e
 
 
-def _block_envs(block: list[ast.stmt]) -> Iterator[tuple[int, ast.stmt, dict]]:
+def _block_envs(block: list[ast.stmt], env0: Optional[dict] = None) -> Iterator[tuple[int, ast.stmt, dict]]:
     """Walk a statement list; yield (index, stmt, env) where env maps temporaries assigned earlier
     in the same block (plain `name = expr`) to their (already substituted) right-hand sides."""
-    env: dict[str, ast.AST] = {}
+    env: dict[str, ast.AST] = dict(env0 or {})
     for i, s in enumerate(block):
         yield i, s, dict(env)
         tgt = None
@@ -172,11 +177,37 @@ def _block_envs(block: list[ast.stmt]) -> Iterator[tuple[int, ast.stmt, dict]]:
         elif isinstance(s, ast.AnnAssign) and isinstance(s.target, ast.Name) and s.value is not None:
             tgt, val = s.target.id, s.value
         if tgt is not None:
-            env[tgt] = subst(val, env)
+            if tgt in {n.id for n in ast.walk(val) if isinstance(n, ast.Name)} and tgt not in env:
+                env.pop(tgt, None)  # self-referential re-binding of a non-temporary
+            else:
+                env[tgt] = subst(val, env)
         else:
-            for t in _targets(s):
-                if isinstance(t, ast.Name):
-                    env.pop(t.id, None)
+            # any other statement (incl. compound ones) invalidates the names it stores
+            for n in ast.walk(s):
+                if isinstance(n, ast.Name) and isinstance(n.ctx, (ast.Store, ast.Del)):
+                    env.pop(n.id, None)
+
+
+def _env_chain(pm: dict, stmt: ast.AST, root: ast.AST) -> dict:
+    """Temporaries visible at `stmt`: plain assignments that precede it in its own block and in every enclosing block
+    up to (not including) `root`."""
+    chain = []
+    cur = stmt
+    while cur is not root and cur in pm:
+        if isinstance(cur, ast.stmt):
+            chain.append(cur)
+        cur = pm[cur]
+    env: dict = {}
+    for node in reversed(chain):
+        try:
+            block = _block_of(pm, node)
+        except Undecided:
+            continue
+        for _, s2, e2 in _block_envs(block, env):
+            if s2 is node:
+                env = e2
+                break
+    return env
 
 
 def _empty_container(e: Optional[ast.expr], kind: str) -> bool:
@@ -464,7 +495,20 @@ def _check_inherited_order(ctx: Ctx, rel: str, meths: dict) -> None:
 # R2 _cluster_dofs_gridwise
 # ----------------------------------------------------------------------------------------------
 
-def _grid_source(e: ast.expr) -> Optional[list[str]]:
+_METHS: dict = {}   # methods of EquationSystem (set by run); used to follow ONE level of private helper calls on self
+
+
+def _helper_return(e: ast.AST) -> Optional[ast.expr]:
+    """If e is `self._helper()` (no arguments) and the helper's body is a single `return <expr>`, that expression."""
+    if isinstance(e, ast.Call) and isinstance(e.func, ast.Attribute) and isinstance(e.func.value, ast.Name) and e.func.value.id == "self" \
+            and not e.args and not e.keywords and e.func.attr in _METHS:
+        body = body_nodoc(_METHS[e.func.attr])
+        if len(body) == 1 and isinstance(body[0], ast.Return) and body[0].value is not None:
+            return body[0].value
+    return None
+
+
+def _grid_source(e: ast.expr, fn: Optional[ast.AST] = None, depth: int = 0) -> Optional[list[str]]:
     """['sd'] / ['intf'] / concatenations; None if e is not an md-grid listing."""
     if isinstance(e, ast.Call) and isinstance(e.func, ast.Attribute) and e.func.attr in ("subdomains", "interfaces"):
         recv = u(e.func.value)
@@ -474,14 +518,65 @@ def _grid_source(e: ast.expr) -> Optional[list[str]]:
             raise Undecided(f"grid listing with arguments (possibly a filtered/re-ordered list): {u(e)}")
         return ["sd" if e.func.attr == "subdomains" else "intf"]
     if isinstance(e, ast.BinOp) and isinstance(e.op, ast.Add):
-        l, r = _grid_source(e.left), _grid_source(e.right)
+        l, r = _grid_source(e.left, fn, depth), _grid_source(e.right, fn, depth)
         if l is not None and r is not None:
             return l + r
         return None
-    if isinstance(e, ast.Call) and call_name(e) in ("list", "chain") and e.args:
-        parts = [_grid_source(a) for a in e.args]
+    if isinstance(e, ast.Call) and call_name(e) in ("list", "chain", "tuple") and e.args:
+        parts = [_grid_source(a, fn, depth) for a in e.args]
         if all(p is not None for p in parts):
             return [x for p in parts for x in p]  # type: ignore[union-attr]
+        return None
+    if isinstance(e, (ast.List, ast.Tuple)) and e.elts and all(isinstance(x, ast.Starred) for x in e.elts):
+        parts = [_grid_source(x.value, fn, depth) for x in e.elts]  # type: ignore[attr-defined]
+        if all(p is not None for p in parts):
+            return [x for p in parts for x in p]  # type: ignore[union-attr]
+        return None
+    h = _helper_return(e)
+    if h is not None and depth < 1:
+        return _grid_source(h, None, depth + 1)
+    if isinstance(e, ast.Name) and fn is not None and depth < 2:
+        # a local list: `x = <src>` possibly followed by `x += <src>` / `x.extend(<src>)` / `x = x + <src>`
+        seq: list[str] = []
+        seen = False
+        for st in sorted([n for n in walk_local(fn) if isinstance(n, (ast.Assign, ast.AnnAssign, ast.AugAssign, ast.Expr))],
+                         key=lambda n: (n.lineno, n.col_offset)):
+            part = None
+            if isinstance(st, (ast.Assign, ast.AnnAssign)) and st.value is not None:
+                tg = st.targets[0] if isinstance(st, ast.Assign) else st.target
+                if not (isinstance(tg, ast.Name) and tg.id == e.id):
+                    continue
+                v = st.value
+                if isinstance(v, ast.BinOp) and isinstance(v.op, ast.Add) and u(v.left) == e.id and seen:
+                    part = _grid_source(v.right, fn, depth + 1)
+                    if part is None:
+                        return None
+                    seq += part
+                    continue
+                if (isinstance(v, ast.List) and not v.elts) or (isinstance(v, ast.Call) and u(v.func) == "list" and not v.args):
+                    seq, seen = [], True
+                    continue
+                part = _grid_source(v, fn, depth + 1)
+                if part is None:
+                    return None
+                seq, seen = list(part), True
+            elif isinstance(st, ast.AugAssign) and isinstance(st.target, ast.Name) and st.target.id == e.id:
+                if not isinstance(st.op, ast.Add) or not seen:
+                    return None
+                part = _grid_source(st.value, fn, depth + 1)
+                if part is None:
+                    return None
+                seq += part
+            elif isinstance(st, ast.Expr) and isinstance(st.value, ast.Call) and isinstance(st.value.func, ast.Attribute) \
+                    and u(st.value.func.value) == e.id:
+                if st.value.func.attr == "extend" and len(st.value.args) == 1 and seen:
+                    part = _grid_source(st.value.args[0], fn, depth + 1)
+                    if part is None:
+                        return None
+                    seq += part
+                elif st.value.func.attr in ("sort", "reverse", "insert", "pop", "remove", "append"):
+                    return None
+        return seq if seen and seq else None
     return None
 
 
@@ -506,7 +601,7 @@ def _check_cluster(ctx: Ctx, rel: str, fn: ast.FunctionDef) -> None:
     grid_loops = []
     for n in walk_local(fn):
         if isinstance(n, ast.For):
-            gs = _grid_source(n.iter)
+            gs = _grid_source(n.iter, fn)
             if gs is not None:
                 grid_loops.append((n, gs))
     grid_loops.sort(key=lambda t: (t[0].lineno, t[0].col_offset))
@@ -608,7 +703,7 @@ def _check_cluster(ctx: Ctx, rel: str, fn: ast.FunctionDef) -> None:
                   f"a block is emitted for exactly the variables with {vname}.domain == {gname}",
                   construct=f"[{tag}] guard {u(guard) if guard is not None else None}")
         # old size through old number of the same id
-        env_at = {id(s): env for _, s, env in _block_envs(block)}
+        env_at = {id(app_stmt): _env_chain(pm, app_stmt, loop), id(ins_stmt): _env_chain(pm, ins_stmt, loop)}
         size_expr = subst(app.args[0], env_at[id(app_stmt)]) if app.args else None
         size_expr = _unwrap(size_expr) if size_expr is not None else None
         ok_size = False
@@ -763,18 +858,27 @@ def _offsets_kind(e: ast.expr) -> Optional[str]:
     return None
 
 
+def _offsets_kind_resolved(e: ast.expr) -> Optional[str]:
+    k = _offsets_kind(e)
+    if k is None:
+        h = _helper_return(e)
+        if h is not None:
+            k = _offsets_kind(h)
+    return k
+
+
 def _find_offsets(ctx: Ctx, rel: str, q: str, fn: ast.FunctionDef) -> str:
     """Locate the local offsets array; records the obligation; returns its name."""
     for s in walk_local(fn):
         if isinstance(s, ast.Assign) and len(s.targets) == 1 and isinstance(s.targets[0], ast.Name):
-            k = _offsets_kind(s.value)
+            k = _offsets_kind_resolved(s.value)
             if k is not None:
                 name = s.targets[0].id
                 if len(_all_name_stores(fn, name)) != 1:
                     raise Undecided(f"{q}: offsets array {name} assigned more than once")
                 ctx.check("R3", k == "ok", rel, q, s,
                           "block offsets must be (0, cumsum(_variable_num_dofs)): entry n is the start of block n and entry "
-                          "n+1 its end", construct=f"offsets <- {u(s.value)}", facts={"kind": k})
+                          "n+1 its end", construct=f"offsets <- {u(_helper_return(s.value) or s.value)}", facts={"kind": k})
                 return name
     raise Undecided(f"{q}: no offsets array derived from cumsum(self._variable_num_dofs) found")
 
@@ -796,22 +900,26 @@ def _idx_plus(e: ast.expr, name_txt: str) -> Optional[int]:
 def _check_dofs_of(ctx: Ctx, rel: str, fn: ast.FunctionDef) -> None:
     q = f"{CLS}.dofs_of"
     G = _find_offsets(ctx, rel, q, fn)
-    aranges = [c for c in walk_local(fn) if isinstance(c, ast.Call) and call_name(c) == "arange" and len(c.args) >= 2
-               and any(isinstance(n, ast.Name) and n.id == G for n in ast.walk(c))]
-    if len(aranges) != 1:
-        raise Undecided(f"{q}: expected one arange over the offsets array, found {len(aranges)}")
-    ar = aranges[0]
     pm = parent_map(fn)
-    loop = pm[enclosing_stmt(pm, ar)]
-    while loop is not fn and not isinstance(loop, ast.For):
-        loop = pm[loop]
-    if not isinstance(loop, ast.For) or not isinstance(loop.target, ast.Name):
+    cands = []
+    for c in walk_local(fn):
+        if isinstance(c, ast.Call) and call_name(c) == "arange" and len(c.args) >= 2:
+            st = enclosing_stmt(pm, c)
+            loop = pm[st]
+            while loop is not fn and not isinstance(loop, ast.For):
+                loop = pm[loop]
+            if not isinstance(loop, ast.For):
+                continue
+            env = _env_chain(pm, st, loop)
+            lo, hi = subst(c.args[0], env), subst(c.args[1], env)
+            if any(isinstance(n, ast.Name) and n.id == G for x in (lo, hi) for n in ast.walk(x)):
+                cands.append((c, st, loop, lo, hi))
+    if len(cands) != 1:
+        raise Undecided(f"{q}: expected one arange over the offsets array, found {len(cands)}")
+    ar, st, loop, lo, hi = cands[0]
+    if not isinstance(loop.target, ast.Name):
         raise Undecided(f"{q}: index ranges are not produced in a for loop over variables")
     v = loop.target.id
-    st = enclosing_stmt(pm, ar)
-    block = _block_of(pm, st)
-    env = {id(s): e for _, s, e in _block_envs(block)}[id(st)]
-    lo, hi = subst(ar.args[0], env), subst(ar.args[1], env)
     nexpr = None
     for e in (lo, hi):
         if isinstance(e, ast.Subscript) and u(e.value) == G:
@@ -843,21 +951,29 @@ def _check_identify_dof(ctx: Ctx, rel: str, fn: ast.FunctionDef) -> None:
     G = _find_offsets(ctx, rel, q, fn)
     params = [a.arg for a in fn.args.args]
     dof = params[1] if len(params) > 1 else None
-    am = [c for c in walk_local(fn) if isinstance(c, ast.Call) and call_name(c) == "argmax"]
+    am = [c for c in walk_local(fn) if isinstance(c, ast.Call) and call_name(c) in ("argmax", "searchsorted")]
     if len(am) != 1 or dof is None:
-        raise Undecided(f"{q}: expected exactly one argmax over the offsets (unknown block search idiom)")
+        raise Undecided(f"{q}: expected exactly one argmax/searchsorted over the offsets (unknown block search idiom)")
     pm = parent_map(fn)
     c = am[0]
     arg = c.args[0] if c.args else None
     verdict = None
-    if isinstance(arg, ast.Compare) and len(arg.ops) == 1:
+    if call_name(c) == "searchsorted":
+        # searchsorted(offsets, dof, side='right') == argmax(offsets > dof); the default side='left' equals `>=`
+        hay = c.func.value if (isinstance(c.func, ast.Attribute) and u(c.func.value) == G) else (c.args[0] if c.args else None)
+        needle = c.args[0] if hay is not None and hay is not (c.args[0] if c.args else None) else (c.args[1] if len(c.args) > 1 else None)
+        side = kwarg(c, "side")
+        if hay is not None and u(hay) == G and needle is not None and u(needle) == dof:
+            verdict = isinstance(side, ast.Constant) and side.value == "right"
+            arg = c
+    elif isinstance(arg, ast.Compare) and len(arg.ops) == 1:
         l, op, r = u(arg.left), arg.ops[0], u(arg.comparators[0])
         if (l, r) == (G, dof):
             verdict = isinstance(op, ast.Gt) if isinstance(op, (ast.Gt, ast.GtE)) else None
         elif (l, r) == (dof, G):
             verdict = isinstance(op, ast.Lt) if isinstance(op, (ast.Lt, ast.LtE)) else None
     if verdict is None:
-        raise Undecided(f"{q}: argmax argument is not a comparison of the offsets with the dof: {u(arg) if arg else None}")
+        raise Undecided(f"{q}: block search is not a comparison of the offsets with the dof: {u(arg) if arg else None}")
     ctx.check("R3", verdict, rel, q, c,
               "the first offset STRICTLY greater than dof is the end of the owning block (>= would assign the first dof of "
               "every block to its predecessor)", construct=f"argmax({u(arg)})")
@@ -891,6 +1007,19 @@ def _check_identify_dof(ctx: Ctx, rel: str, fn: ast.FunctionDef) -> None:
             ctx.check("R3", ok, rel, q, comp,
                       "the owning id is the key of _variable_numbers whose value equals the block number",
                       construct=u(comp))
+            found = True
+    for lp in [n for n in walk_local(fn) if isinstance(n, ast.For)]:
+        it = lp.iter
+        if isinstance(it, ast.Call) and isinstance(it.func, ast.Attribute) and it.func.attr == "items" \
+                and _is_self_attr(it.func.value, "_variable_numbers") and isinstance(lp.target, ast.Tuple) and len(lp.target.elts) == 2:
+            kname, vname = u(lp.target.elts[0]), u(lp.target.elts[1])
+            conds = [x for x in walk_local(lp) if isinstance(x, ast.Compare) and len(x.ops) == 1 and isinstance(x.ops[0], ast.Eq)
+                     and {u(x.left), u(x.comparators[0])} == {vname, N}]
+            uses = [x for x in walk_local(lp) if isinstance(x, ast.Subscript) and _is_self_attr(x.value, "_variables")]
+            ok = len(conds) == 1 and bool(uses) and all(u(x.slice) == kname for x in uses)
+            ctx.check("R3", ok, rel, q, lp,
+                      "the owning id is the key of _variable_numbers whose value equals the block number",
+                      construct=f"for {kname}, {vname} in _variable_numbers.items(): {[u(c_) for c_ in conds]}")
             found = True
     if not found and not misuse:
         raise Undecided(f"{q}: lookup of the id through _variable_numbers.items() not found")
@@ -929,7 +1058,7 @@ def _block_number_subscripts(ctx: Ctx, rel: str, q: str, fn: ast.FunctionDef, nu
         if why is not None:
             ok = False
         elif _is_self_attr(base, "_variable_num_dofs") or (isinstance(base, ast.Name) and any(
-                _offsets_kind(s.value) is not None for s in _all_name_stores(fn, base.id) if isinstance(s, ast.Assign))):
+                _offsets_kind_resolved(s.value) is not None for s in _all_name_stores(fn, base.id) if isinstance(s, ast.Assign))):
             ok, why = True, "block-ordered"
         else:
             raise Undecided(f"{q}: block number indexes an unclassified container {u(base)[:60]}")
@@ -1031,17 +1160,26 @@ def _check_get_values(ctx: Ctx, rel: str, fn: ast.FunctionDef) -> None:
     L = cat[0].args[0].id
     apps = [c for c in walk_local(fn) if isinstance(c, ast.Call) and isinstance(c.func, ast.Attribute)
             and c.func.attr in ("append", "extend", "insert") and u(c.func.value) == L]
-    if len(apps) != 1 or apps[0].func.attr != "append":  # type: ignore[union-attr]
-        raise Undecided(f"{q}: expected a single append to the value list {L}")
-    loops = []
-    cur: ast.AST = apps[0]
-    while cur in pm and pm[cur] is not fn:
-        cur = pm[cur]
-        if isinstance(cur, (ast.For, ast.While)):
-            loops.append(cur)
-    if len(loops) != 1 or not isinstance(loops[0], ast.For):
-        raise Undecided(f"{q}: value blocks are not appended in a single for loop")
-    loop = loops[0]
+    lstores = _all_name_stores(fn, L)
+    if not apps and len(lstores) == 1 and isinstance(getattr(lstores[0], "value", None), ast.ListComp) \
+            and len(lstores[0].value.generators) == 1:
+        # values = [<fetch> for id in <source> if id in <requested>]: the comprehension plays the role of the loop
+        comp = lstores[0].value
+        gen = comp.generators[0]
+        loop = ast.For(target=gen.target, iter=gen.iter, body=[ast.Expr(value=comp.elt)] + [ast.Expr(value=c) for c in gen.ifs], orelse=[])
+        ast.copy_location(loop, comp)
+    else:
+        if len(apps) != 1 or apps[0].func.attr != "append":  # type: ignore[union-attr]
+            raise Undecided(f"{q}: expected a single append to the value list {L}")
+        loops = []
+        cur: ast.AST = apps[0]
+        while cur in pm and pm[cur] is not fn:
+            cur = pm[cur]
+            if isinstance(cur, (ast.For, ast.While)):
+                loops.append(cur)
+        if len(loops) != 1 or not isinstance(loops[0], ast.For):
+            raise Undecided(f"{q}: value blocks are not appended in a single for loop")
+        loop = loops[0]
     kind, why = _order_source(fn, loop.iter)
     ctx.check("R3", kind == "block", rel, q, loop,
               f"values must be gathered in block order (iterate _variable_numbers): {why}",
@@ -1054,7 +1192,7 @@ def _check_get_values(ctx: Ctx, rel: str, fn: ast.FunctionDef) -> None:
     ok = bool(lookups) and all(u(n.slice) == idn for n in lookups)
     ctx.check("R3", ok, rel, q, lookups[0] if lookups else loop,
               "the block's variable is _variables[<iterated id>]", construct=f"lookups {[u(n) for n in lookups]}")
-    tests = [t for t in walk_local(loop) if isinstance(t, ast.Compare) and len(t.ops) == 1 and isinstance(t.ops[0], ast.In)
+    tests = [t for t in walk_local(loop) if isinstance(t, ast.Compare) and len(t.ops) == 1 and isinstance(t.ops[0], (ast.In, ast.NotIn))
              and u(t.left) == idn]
     ctx.check("R3", len(tests) >= 1, rel, q, tests[0] if tests else loop,
               "blocks are selected by membership of the iterated id in the requested ids",
@@ -1108,7 +1246,7 @@ def _check_set_values(ctx: Ctx, rel: str, fn: ast.FunctionDef) -> None:
         raise Undecided(f"{q}: '{b}' is not assigned exactly once inside the loop")
     bst = b_in[0]
     block = _block_of(pm, bst)
-    env = {id(s): e for _, s, e in _block_envs(block)}[id(bst)]
+    env = _env_chain(pm, bst, loop)
     bexpr = subst(bst.value, env)
     size = None
     if isinstance(bexpr, ast.BinOp) and isinstance(bexpr.op, ast.Add):
@@ -1133,7 +1271,7 @@ def _check_set_values(ctx: Ctx, rel: str, fn: ast.FunctionDef) -> None:
         raise Undecided(f"{q}: expected one set_solution_values call in the loop")
     sc = setc[0]
     sc_stmt = enclosing_stmt(pm, sc)
-    senv = {id(s): e for _, s, e in _block_envs(_block_of(pm, sc_stmt))}[id(sc_stmt)]
+    senv = _env_chain(pm, sc_stmt, loop)
     args = [subst(x, senv) for x in sc.args] + [subst(k.value, senv) for k in sc.keywords]
     passes_slice = any(u(x) == u(subst(sl, senv)) for x in args)
     var_lookups = [n for x in args for n in ast.walk(x) if isinstance(n, ast.Subscript) and _is_self_attr(n.value, "_variables")]
@@ -1199,7 +1337,7 @@ def _check_num_dofs(ctx: Ctx, rel: str, fn: ast.FunctionDef) -> None:
 # R4 block size formulas
 # ----------------------------------------------------------------------------------------------
 
-def _check_size_formula(ctx: Ctx, rel: str, qual: str, fn: ast.FunctionDef) -> None:
+def _check_size_formula(ctx: Ctx, rel: str, qual: str, fn: ast.FunctionDef, _depth: int = 0, _bind: Optional[dict] = None) -> None:
     pm = parent_map(fn)
     prods = []
     for n in walk_local(fn):
@@ -1211,6 +1349,19 @@ def _check_size_formula(ctx: Ctx, rel: str, qual: str, fn: ast.FunctionDef) -> N
                     ent, mult = a, b
             if ent is not None:
                 prods.append((n, ent, mult))
+    if not prods and _depth == 0:
+        # the formula may live in ONE private helper shared by the siblings: follow it (one level)
+        helpers = [c for c in walk_local(fn) if isinstance(c, ast.Call) and isinstance(c.func, ast.Attribute) and u(c.func.value) == "self"
+                   and c.func.attr in _METHS and c.func.attr.startswith("_") and any(
+                       isinstance(n, ast.Attribute) and n.attr.startswith("num_") for n in walk_local(_METHS[c.func.attr]))]
+        if len(helpers) == 1:
+            h = _METHS[helpers[0].func.attr]
+            hp = [a.arg for a in h.args.args if a.arg != "self"]
+            binding = {p_: a_ for p_, a_ in zip(hp, helpers[0].args)}
+            binding.update({k.arg: k.value for k in helpers[0].keywords if k.arg})
+            _check_size_formula(ctx, rel, f"{qual} -> {helpers[0].func.attr}", h, _depth=1,
+                                _bind={k: inline_locals(fn, v) for k, v in binding.items()})
+            return
     if len(prods) != 3:
         raise Undecided(f"{qual}: expected three num_<entity> * multiplicity products, found {len(prods)}")
     seen = []
@@ -1223,7 +1374,7 @@ def _check_size_formula(ctx: Ctx, rel: str, qual: str, fn: ast.FunctionDef) -> N
         dflt = mult.args[1] if len(mult.args) > 1 else None
         if not (isinstance(dflt, ast.Constant) and dflt.value == 0):
             raise Undecided(f"{qual}: multiplicity default is not 0: {u(mult)}")
-        dof_src.add(u(inline_locals(fn, mult.func.value)))
+        dof_src.add(u(subst(inline_locals(fn, mult.func.value), _bind or {})))
         # faces / nodes only for subdomains
         if e1 != "cells":
             cur: ast.AST = n
@@ -1251,6 +1402,8 @@ def run(ctx: Ctx) -> None:
     mod = ctx.repo.module(ES)
     cls = mod.cls(CLS)
     meths = methods(cls)
+    _METHS.clear()
+    _METHS.update(meths)
     for need in PRIMITIVES + ("__init__", "create_variables", "remove_variables", "dofs_of", "identify_dof",
                               "projection_to", "get_variable_values", "set_variable_values", "num_dofs"):
         if need not in meths:
